@@ -438,9 +438,12 @@ fn gen_cfg_for_c20(rng: &mut Rng) -> GenCfg {
     cfg.fancy_bias = rng.range(4, 10);
     cfg.allow_atomic = true;
     cfg.allow_look = true;
-    // known finding (conditional's false path leaks its marker): conditionals are kept out of
-    // atomic contexts in generated workloads; fixed witnesses probe the finding instead
-    cfg.allow_cond_in_atomic = false;
+    // known finding (conditional's false path leaks its marker): a third of the runs do put
+    // conditionals into atomic contexts; a run that consumes a leaked marker is then recognised by
+    // the finding's call-site signature (an EndAtomic popping the marker of a *conditional's*
+    // BeginAtomic), counted, and not checked further; everything up to that point, and every other
+    // kind of divergence, is still checked and reported
+    cfg.allow_cond_in_atomic = rng.chance(1, 3);
     cfg
 }
 
@@ -464,6 +467,7 @@ struct JobOut {
     prog_faulted: u64,
     prog_fault_fired: u64,
     prog_nontrivial_hashes: Vec<u64>,
+    known_leak_hits: u64,
     shadow: ShadowStats,
     sample: Option<Value>,
 }
@@ -488,7 +492,7 @@ fn add_shadow(a: &mut ShadowStats, b: &ShadowStats) {
 }
 
 /// One job = one seed: a block of histories and a block of shadowed VM runs.
-fn job(seed: u64, i: u64, thorough: bool) -> (JobOut, Option<Violation>) {
+fn job(seed: u64, i: u64, thorough: bool, leak_listed: bool) -> (JobOut, Option<Violation>) {
     let mut out = JobOut::default();
     let mut rng = Rng::new(derive(seed, i));
     // (a) histories
@@ -540,7 +544,10 @@ fn job(seed: u64, i: u64, thorough: bool) -> (JobOut, Option<Violation>) {
             }
             out.prog_fancy += 1;
             add_shadow(&mut out.shadow, &o.stats);
-            if let Some(v) = check_prog_outcome(&case, &o) {
+            if o.leaked.is_some() && o.violation.is_none() {
+                out.known_leak_hits += 1;
+            }
+            if let Some(v) = check_prog_outcome(&case, &o, leak_listed) {
                 return (out, Some(v));
             }
             if o.stats.cuts_nonempty > 0 || o.stats.neglook_unwinds_checked > 0 {
@@ -571,7 +578,10 @@ fn job(seed: u64, i: u64, thorough: bool) -> (JobOut, Option<Violation>) {
                             out.prog_fault_fired += 1;
                         }
                     }
-                    if let Some(v) = check_prog_outcome(&case, &o2) {
+                    if o2.leaked.is_some() && o2.violation.is_none() {
+                        out.known_leak_hits += 1;
+                    }
+                    if let Some(v) = check_prog_outcome(&case, &o2, leak_listed) {
                         return (out, Some(v));
                     }
                 }
@@ -581,14 +591,17 @@ fn job(seed: u64, i: u64, thorough: bool) -> (JobOut, Option<Violation>) {
     (out, None)
 }
 
-fn check_prog_outcome(case: &ProgCase, o: &ProgOutcome) -> Option<Violation> {
+fn check_prog_outcome(case: &ProgCase, o: &ProgOutcome, leak_listed: bool) -> Option<Violation> {
     if let Some((class, detail)) = &o.violation {
         let min = minimise_prog(case, class);
         return Some(Violation::new(PROP, class, detail.clone(), min.to_json()));
     }
     if let Some(d) = &o.leaked {
-        // generated workloads keep conditionals out of atomic contexts, so a leaked marker being
-        // consumed here is a *new* witness shape: report it under its own class
+        if leak_listed {
+            // the listed finding, recognised by its call-site signature
+            return None;
+        }
+        // not (or no longer) listed as an open finding: report it
         let min = minimise_prog(case, "cond-marker-leak");
         return Some(Violation::new(PROP, "cond-marker-leak", d.clone(), min.to_json()));
     }
@@ -664,7 +677,7 @@ pub fn minimise_ast(ast: &Node, still: &dyn Fn(&str) -> bool) -> Node {
 /// Event digests per job for the determinism self-test.
 pub fn digest(seed: u64, n: u64, workers: usize) -> Vec<u64> {
     let (res, _) = run_batch(n, workers, move |i| {
-        let (o, v) = job(seed, i, false);
+        let (o, v) = job(seed, i, false, true);
         let mut d = Fnv::new();
         d.u64(o.hist_ops);
         d.u64(o.hist_commits);
@@ -741,7 +754,8 @@ pub fn run(opts: &Opts) -> i32 {
         println!("{}", l);
     }
 
-    let (results, viol) = run_batch(n, opts.workers, move |i| job(seed, i, thorough));
+    let leak_listed = is_known(&known, PROP, KNOWN_KEY_LEAK).is_some();
+    let (results, viol) = run_batch(n, opts.workers, move |i| job(seed, i, thorough, leak_listed));
     let mut agg = JobOut::default();
     let mut hist_nt: HashSet<u64> = HashSet::new();
     let mut prog_nt: HashSet<u64> = HashSet::new();
@@ -756,6 +770,7 @@ pub fn run(opts: &Opts) -> i32 {
         agg.prog_fancy += r.prog_fancy;
         agg.prog_faulted += r.prog_faulted;
         agg.prog_fault_fired += r.prog_fault_fired;
+        agg.known_leak_hits += r.known_leak_hits;
         add_shadow(&mut agg.shadow, &r.shadow);
         hist_nt.extend(r.hist_nontrivial_hashes.iter());
         prog_nt.extend(r.prog_nontrivial_hashes.iter());
@@ -823,6 +838,7 @@ pub fn run(opts: &Opts) -> i32 {
             "stubbed": ["limits overridden through the H2 hook for fault runs"],
         }));
         extra.insert("known_findings_reported".into(), json!(known_lines));
+        extra.insert("generated_vm_runs_showing_the_listed_leak_signature".into(), json!(agg.known_leak_hits));
         Evidence {
             property: PROP.into(),
             tier: opts.tier,
@@ -835,7 +851,7 @@ pub fn run(opts: &Opts) -> i32 {
             extra,
             assumptions: vec![
                 "the read-only view (slots, live auxiliary stack, depth) exposes all state the VM's forward behaviour reads".into(),
-                "generated VM workloads keep conditionals out of atomic contexts (known finding, probed by fixed witnesses)".into(),
+                "a generated VM run that consumes a conditional's leaked atomic marker (the listed known finding, recognised by its call-site signature) is counted and not checked past that point".into(),
             ],
             wall_s: wall,
             violations,
